@@ -26,7 +26,7 @@ import semlib
 import vlib
 
 PID = "C03"
-FEATS = ["ints", "bool", "str", "rec", "enum", "opt", "list", "loops", "calls", "ret", "copymut", "tr", "fstr", "filtermap", "generic", "shadow", "kconst"]
+FEATS = ["ints", "bool", "str", "rec", "enum", "opt", "list", "loops", "calls", "ret", "copymut", "tr", "fstr", "filtermap", "generic", "shadow", "kconst", "mods"]
 
 
 def corpus_scripts():
